@@ -33,6 +33,8 @@ def main():
     def note(i, kind, event, data=None):
         os.write(rec, (json.dumps({'step': i, 'kind': kind, 'event': event, 'data': data}) + '\n').encode('utf-8'))
 
+    note(-1, 'argv', 'argv', sys.argv[2:])
+
     try:
         import termios
         attr = termios.tcgetattr(0)
